@@ -331,7 +331,9 @@ class Hooked:
 
 
 def _h(fn, name, hooked):
-    return Hooked(fn, name) if (hooked and fn is not None) else fn
+    if not hooked or fn is None:
+        return fn
+    return Hooked(fn, (hooked + name) if isinstance(hooked, str) else name)
 
 
 # --------------------------------------------------------------------------------------
